@@ -120,17 +120,25 @@ func ProcessSyncAggregate(ctx context.Context, spec *common.Spec, epc *common.Ep
 	participantReward := maxParticipantRewards / common.Gwei(spec.SYNC_COMMITTEE_SIZE)
 	proposerReward := participantReward * PROPOSER_WEIGHT / (WEIGHT_DENOMINATOR - PROPOSER_WEIGHT)
 
-	// Apply participant rewards and penalties
+	// Apply participant and proposer rewards, and penalties
 	bals, err := state.Balances()
 	if err != nil {
 		return err
 	}
-	// Note: the minimum effective balance of the proposer is sufficient
-	// to not result in differences from spec operations
+	proposer, err := epc.GetBeaconProposer(currentSlot)
+	if err != nil {
+		return err
+	}
+	// Note: the proposer is rewarded per participant, in committee order, like the spec does:
+	// penalties saturate at zero, so a proposer that is itself a non-participating committee member
+	// with a balance below the participant reward ends up with a different balance if the proposer rewards are summed.
 	for i := uint64(0); i < uint64(spec.SYNC_COMMITTEE_SIZE); i++ {
 		validatorIndex := epc.CurrentSyncCommittee.Indices[i]
 		if agg.SyncCommitteeBits.GetBit(i) {
 			if err := common.IncreaseBalance(bals, validatorIndex, participantReward); err != nil {
+				return err
+			}
+			if err := common.IncreaseBalance(bals, proposer, proposerReward); err != nil {
 				return err
 			}
 		} else {
@@ -138,15 +146,6 @@ func ProcessSyncAggregate(ctx context.Context, spec *common.Spec, epc *common.Ep
 				return err
 			}
 		}
-	}
-	// Apply proposer rewards
-	proposer, err := epc.GetBeaconProposer(currentSlot)
-	if err != nil {
-		return err
-	}
-	proposerRewardSum := proposerReward * common.Gwei(len(participantPubkeys))
-	if err := common.IncreaseBalance(bals, proposer, proposerRewardSum); err != nil {
-		return err
 	}
 	return nil
 }
